@@ -32,12 +32,21 @@ var monthOffsets = []int{0, 1, -1, 2, -2, 11, -11, 12, -12, 13, -13, 14, -14, 25
 func init() {
 	register(&Check{
 		ID:     "C06",
-		Rule:   "every lunar year table 1..9998 in both tiers, all 15 months each: structural invariants (numbering, leap placement, lengths, contiguity, year length) outside AD 8-23 / 236-240, agreement of every month shared by the tables of adjacent years, table accessors against the table, LunarMonth.Next(n) for the offset alphabet (thorough: every month of every year; quick: the quick-set years) against the globally ordered month sequence assembled from the tables (so Next(n) = n x Next(1)), New Year's Eve / Next(1) at every year end. non-trivial = leap months, year-end transitions and months reached across a table boundary",
+		Rule:   "every lunar year table 1..9998 in both tiers, all 15 months each: structural invariants (numbering, leap placement, lengths, contiguity, year length) outside AD 8-23 / 236-240, agreement of every month shared by the tables of adjacent years, table accessors against the table, LunarMonth.Next(n) for the offset alphabet (thorough: every month of every year; quick: the quick-set years) against the globally ordered month sequence assembled from the tables (so Next(n) = n x Next(1)), New Year's Eve / Next(1) at every year end; far jumps: single Next(n) calls with |n| = 12,368 / 30,000 / 120,000 months (thorough: 1,000 .. 120,000) from 8 starts (thorough 16) against the sequence of all months 1..9998. non-trivial = leap months, year-end transitions and months reached across a table boundary",
 		Assume: []string{"reform windows AD 8-23 and 236-240 are exempt from the structural clauses exactly as the property states; navigation and cross-table agreement are still checked there"},
 		Shards: func(tier string, seed int64) []Shard {
 			// every tier builds and checks ALL 9998 tables (structure, agreement, accessors, year end);
 			// the quick tier restricts the navigation clause (19 offsets per month) to the quick-set years
-			return splitRanges([][2]int{{1, 9998}}, 64, Shard{Tier: tier, Seed: seed})
+			sh := splitRanges([][2]int{{1, 9998}}, 64, Shard{Tier: tier, Seed: seed})
+			// far jumps: single Next(n) calls spanning centuries to the whole range, against the global month sequence
+			nFar := 8
+			if tier == "thorough" {
+				nFar = 16
+			}
+			for k := 0; k < nFar; k++ {
+				sh = append(sh, Shard{Kind: "far", Arg: fmt.Sprint(k), Tier: tier, Seed: seed})
+			}
+			return sh
 		},
 		Run:           runC06,
 		Bounds:        func(tier string) map[string]interface{} { return map[string]interface{}{"month_offsets": monthOffsets} },
@@ -45,7 +54,75 @@ func init() {
 	})
 }
 
+// c06Far: the globally ordered sequence of all months of lunar years 1..9998 (each taken from its own year's table),
+// and single Next(n) calls with |n| from 1,000 to 120,000 months from a few starts; Next(n) must land on the month n
+// positions away, and Next(n).Next(-n) must return to the start.
+func c06Far(w *W) {
+	var seq []MonthRec
+	pos := map[string]int{}
+	for y := 1; y <= 9998; y++ {
+		var t []MonthRec
+		if msg, p := try(func() { t = snapshotYear(y) }); p {
+			w.Viol(fmt.Sprintf("C06:NewLunarYear:panic:%d", y), msg, y)
+			return
+		}
+		for _, m := range t {
+			if m.Y == y {
+				pos[m.key()] = len(seq)
+				seq = append(seq, m)
+			}
+		}
+	}
+	k := atoi(w.Shard.Arg)
+	starts := [][2]int{{300, 1}, {241, 1}, {9998, 12}, {2024, 5}, {1582, 9}, {5000, 7}, {2033, 11}, {1000, 3}, {7777, 10}, {260, 12}, {3333, 2}, {4000, 6}, {9000, 1}, {600, 8}, {2500, 4}, {8000, 9}}
+	jumps := []int{12368, -12368, 30000, -30000, 120000, -120000}
+	if w.Thorough() {
+		jumps = []int{1000, -1000, 12368, -12368, 24000, -24000, 30000, -30000, 60000, -60000, 120000, -120000}
+	}
+	for _, st := range starts[k%len(starts) : k%len(starts)+1] {
+		i0, ok := pos[fmt.Sprintf("%d/%d", st[0], st[1])]
+		if !ok {
+			continue
+		}
+		for _, n := range jumps {
+			j := i0 + n
+			if j < 0 || j >= len(seq) || seq[j].Y <= 240 {
+				continue // (walks that enter the reform windows are judged by the neighbouring-table clause only: the
+				// tables of years 18/19 label a shared month differently, a known finding, so positions are ambiguous there)
+			}
+			var got, back *calendar.LunarMonth
+			if msg, p := try(func() {
+				got = calendar.NewLunarMonthFromYm(st[0], st[1]).Next(n)
+				if got != nil {
+					back = got.Next(-n)
+				}
+			}); p {
+				w.Viol(fmt.Sprintf("C06:Next(%d):panic:%d/%d", n, st[0], st[1]), msg, st)
+				continue
+			}
+			w.R.Transitions++
+			w.R.Evals++
+			w.R.Nontrivial++
+			want := seq[j]
+			if got == nil || got.GetYear() != want.Y || got.GetMonth() != want.M || got.GetFirstJulianDay() != want.First {
+				g := "nil"
+				if got != nil {
+					g = fmt.Sprintf("%d/%d", got.GetYear(), got.GetMonth())
+				}
+				w.Viol(fmt.Sprintf("C06:Next(%d):%d/%d", n, st[0], st[1]), fmt.Sprintf("LunarMonth %d/%d .Next(%d) = %s, expected %s (the month %d positions along the sequence of all tables)", st[0], st[1], n, g, want.key(), n), st)
+			} else if back == nil || back.GetYear() != st[0] || back.GetMonth() != st[1] {
+				w.Viol(fmt.Sprintf("C06:Next(%d)back:%d/%d", n, st[0], st[1]), fmt.Sprintf("LunarMonth %d/%d .Next(%d).Next(%d) does not return to the start", st[0], st[1], n, -n), st)
+			}
+		}
+		w.R.States++
+	}
+}
+
 func runC06(w *W) {
+	if w.Shard.Kind == "far" {
+		c06Far(w)
+		return
+	}
 	navYears := map[int]bool{}
 	for _, y := range quickYears(w.Shard.Seed, 9998) {
 		navYears[y] = true
